@@ -13,7 +13,7 @@ PROPERTY = "C01"
 LEVEL = "exploration"
 BUDGET_S = {"quick": 45, "thorough": 600}
 FLOOR = {"quick": 2500, "thorough": 40000}
-MUST_REACH = ("ace_constructed", "rendered_line_reread", "standard_aces")
+MUST_REACH = ("ace_constructed", "rendered_line_reread", "standard_aces", "line_reassignments_judged", "raised_limit_expansions")
 RULE = ("grammar-generated extended ACE texts in every accepted spelling (names/numbers, host vs /32 vs zero wildcard, "
         "any vs all-ones wildcard vs /0, dirty bases, non-contiguous masks k<=4, 5 port operators incl. empty "
         "denotations, eq/neq with 1..10 operands on IOS, flag/log tokens, sequence 0/1/2^32-1, whitespace variants) x "
@@ -53,7 +53,7 @@ def check_ace_against(ctx, case, ace, want: dict, where: str) -> list:
         got = _addr_sem(getattr(ace, side + "addr"))
         if got != tuple(want[side]):
             problems.append(f"{side}addr {got} != {tuple(want[side])}")
-        elif got[0] == "cube" and bits.ncwb_count(got[2]) <= 6:
+        elif got[0] == "cube" and bits.ncwb_count(got[2]) <= case.get("expand_max", 6):
             plen, _, nets = bits.expansion((got[1], got[2]))
             lib = sorted((int(n.network_address), n.prefixlen) for n in getattr(ace, side + "addr").ipnets())
             if lib != sorted((n, plen) for n in nets):
@@ -74,6 +74,9 @@ def check_ace_against(ctx, case, ace, want: dict, where: str) -> list:
     return [f"{where}: {p}" for p in problems]
 
 
+PREV = {}
+
+
 def execute(ctx, case: dict) -> None:
     from cisco_acl import Ace  # pylint: disable=import-outside-toplevel
 
@@ -83,6 +86,8 @@ def execute(ctx, case: dict) -> None:
     acl_type = case.get("type", "extended")
     if acl_type == "standard":
         kwargs["type"] = "standard"
+    if case.get("max_ncwb"):
+        kwargs["max_ncwb"] = case["max_ncwb"]
     want = reader.read_ace(text, acl_type)
     try:
         ace = Ace(text, **kwargs)
@@ -111,6 +116,24 @@ def execute(ctx, case: dict) -> None:
             problems.append(f"rendered line {line!r} is not valid {platform} syntax: {item}")
     for prob in problems:
         ctx.violation(case, "parsed ACE does not keep the meaning of the text", prob)
+    # the same parser through the line setter of a live entry that held another text (case["prev_text"]) before
+    key = repr(sorted(kwargs.items()))
+    prev_text = case.get("prev_text", PREV.get(key))
+    PREV[key] = text
+    if prev_text and not problems:
+        case["prev_text"] = prev_text
+        try:
+            live = Ace(prev_text, **kwargs)
+            live.line = text
+        except Exception as ex:  # pylint: disable=broad-except
+            ctx.violation(case, "a valid ACE text was rejected by the line setter of a live entry", f"{type(ex).__name__}: {ex}")
+            return
+        ctx.count("line_reassignments_judged")
+        probs2 = check_ace_against(ctx, case, live, want, "fields after assigning the text to a live entry")
+        if live.line != line:
+            probs2.append(f"a live entry that held {prev_text!r} renders {live.line!r}, a new entry {line!r}")
+        for prob in probs2:
+            ctx.violation(case, "an ACE text assigned to a live entry does not keep its meaning", prob)
 
 
 def _sig(case, feats) -> tuple:
@@ -170,6 +193,15 @@ def run(ctx) -> None:
                     _run_generated(ctx, gen, platform, version, rng.random() < 0.3, rng.random() < 0.3)
                     ctx.count("table_names_hit")
                     done += 1
+    if ctx.shard in (1, 2):
+        # a raised limit (keyword max_ncwb): the address set of a 17-bit non-contiguous wildcard, expanded completely
+        side = {1: "permit ip 10.0.0.0 0.255.255.128 any", 2: "deny tcp any 172.16.0.5 85.87.170.170 eq 80"}[ctx.shard]
+        case = {"text": side, "platform": rng.choice(grammar.PLATFORMS), "version": "", "port_nr": False, "protocol_nr": False,
+                "max_ncwb": 17, "expand_max": 17, "prev_text": ""}
+        execute(ctx, case)
+        ctx.count("raised_limit_expansions")
+        ctx.judged(sig=("max_ncwb", 17, ctx.shard), nontrivial=True, sample=case)
+        done += 1
     while done < n_max and not ctx.expired():
         platform = rng.choice(grammar.PLATFORMS)
         version = rng.choice(grammar.VERSIONS)
